@@ -48,6 +48,9 @@ type C13Op struct {
 	Size     int    `json:"size,omitempty"`
 	Provider string `json:"provider,omitempty"` // swap
 	FailAt   int    `json:"fail_at,omitempty"`
+	// Dispatch: the request enters through Container.Dispatch, so the compressor is installed (and
+	// owned) by dispatch itself rather than by ServeHTTP
+	Dispatch bool `json:"dispatch,omitempty"`
 }
 
 var c13Providers = []string{"pool", "bounded0", "bounded1", "bounded4", "bounded1-3", "custom"}
@@ -83,6 +86,7 @@ func genC13Seq(t *rapid.T) C13SeqCase {
 		op.Encoding = rapid.SampledFrom([]string{"gzip", "deflate"}).Draw(t, "encoding")
 		op.Size = rapid.SampledFrom([]int{0, 1, 100, 5000, 70000}).Draw(t, "size")
 		op.FailAt = rapid.IntRange(0, 200).Draw(t, "failat")
+		op.Dispatch = rapid.IntRange(0, 2).Draw(t, "viadispatch") == 0
 		if op.Op == "swap" {
 			op.Provider = rapid.SampledFrom(c13Providers).Draw(t, "newprovider")
 		}
@@ -152,7 +156,17 @@ func checkC13Seq(c C13SeqCase) (vs []*Violation) {
 			hr := harness.NewHTTPRequest(model.ReqSpec{Method: "GET", Path: "/w", Headers: []model.H{{K: "Accept-Encoding", V: op.Encoding}}}, "s")
 			w := httptest.NewRecorder()
 			var pan interface{}
-			func() { defer func() { pan = recover() }(); ct.ServeHTTP(w, hr) }()
+			func() {
+				defer func() { pan = recover() }()
+				if op.Dispatch {
+					ct.Dispatch(w, hr)
+				} else {
+					ct.ServeHTTP(w, hr)
+				}
+			}()
+			if op.Dispatch {
+				where += " via Dispatch"
+			}
 			if pan != nil {
 				vs = append(vs, viol("", "%s: panic escaped: %v", where, pan))
 			}
